@@ -118,6 +118,16 @@ def run_history(story: dict, ops, browser=False, per_call_s=10, on_step=None):
                         conc = ("choose", op[1] % n if n else 0)
                         result = eng.choose(conc[1])
                         obs = ("ok",)
+                    elif kind == "choose_text":
+                        # the offered choice whose text starts with op[1] (a directed step, e.g. into a @join passage);
+                        # falls back to a valid index
+                        texts = [c["text"] for c in eng.current().choices]
+                        idx = next((j for j, t in enumerate(texts) if t.startswith(op[1])), None)
+                        if idx is None:
+                            idx = op[2] % len(texts) if texts else 0
+                        conc = ("choose", idx)
+                        result = eng.choose(idx)
+                        obs = ("ok",)
                     elif kind == "choose":
                         result = eng.choose(op[1])
                         obs = ("ok",)
